@@ -55,6 +55,17 @@ CHECKS.update({
         ref="4/C14"),
 })
 
+CHECKS.update({
+    "C17": dict(
+        technique="static analysis: null-test dominance on the MIR CFG for extern \"C\" pointer parameters (helper summaries, closures, array idiom), C header parser compared with compiled signatures/layouts, RefCell-guard-held-across-hazard forward dataflow, unguarded-store rule",
+        text="Decides four structural clauses over all 64 exported functions: every use of a raw-pointer parameter as a valid pointer "
+             "is dominated by a NULL test; tsrun.h agrees with the compiled exports (names, arity, types, struct fields, enum "
+             "values); no RefCell guard of a GC cell is held across a call that may collect or re-enter (abort in extern \"C\"); "
+             "possibly-object values stored across calls carry a guard. The fulfill_orders defect was repaired (fix: commit). "
+             "Aliasing and lifetime contracts of the API are not decided.",
+        ref="4/C17"),
+})
+
 NOT_APPLICABLE = {
     "C04": "value equivalence with the TypeScript emit; no structural mechanism exists (DESIGN.md 4/C04)",
     "C09": "behaviour of a fixed-point loader over all graphs x schedules; structural parts are decided under C02/C19",
